@@ -2,12 +2,25 @@ import PyxModel.Sexp
 import PyxModel.Oal.Expr
 import PyxModel.Oal.Stmt
 import Gen.OalPrec
+import PyxModel.Oal.Text
 
 /-!
   driver commands of property C07
 
     (c07 <tree | none> (KIND "lexeme") (KIND "lexeme") …)
       -> ((printed (KIND "lexeme") … | none | bad-tree) (parsed <tree> | error))
+
+    (c07 <tree | none> (lay "sep0" "gap1" … "gapN") (KIND "lexeme") …)      TEXT level, N tokens
+      -> (printed parsed (lexed (KIND "lexeme") …) (parsed <tree> | error) (dom LEX LAY SAME))
+         the text is  sep0 ++ lexeme1 ++ gap1 ++ … ++ lexemeN ++ gapN ++ "\n";  `lexed` = the lexer model on it
+         (converted to parser tokens), the fourth answer = `parseText` (PyxModel/Oal/Text.lean: the composition that
+         `text_roundtrip` is about) on it;  `dom`: `inDomain` of the theorems (lexemes lexable; layout accepted) and
+         whether the lexer model returned exactly the written tokens (must be T when LEX and LAY are: `driver_domain_sound`);
+         when SAME is T the third and fourth answers are abbreviated to `=` (they equal the written tokens and the second
+         answer)
+
+    (c07t "text" "text" …)
+      -> (((lexed …) (parsed <tree> | error)) …)        the same two answers for each bare text (+ "\n")
 
   `printed`: the model's `printStmts` of the given tree (compared with the token stream of the text the
   harness wrote); `parsed`: the model's `parseStmts` of the given PLY token stream, as a tree in the same
@@ -17,96 +30,7 @@ import Gen.OalPrec
 namespace Pyx.Driver.C07
 open Pyx Pyx.Sexp Pyx.Oal
 
-def kindName : Kind → String
-  | .ASSIGN => "ASSIGN"
-  | .ASSIGNER => "ASSIGNER"
-  | .BREAK => "BREAK"
-  | .BRIDGE => "BRIDGE"
-  | .SEND => "SEND"
-  | .CONTROL => "CONTROL"
-  | .STOP => "STOP"
-  | .CONTINUE => "CONTINUE"
-  | .CREATE => "CREATE"
-  | .EVENT => "EVENT"
-  | .INSTANCE => "INSTANCE"
-  | .OF => "OF"
-  | .OBJECT => "OBJECT"
-  | .DELETE => "DELETE"
-  | .FOR => "FOR"
-  | .EACH => "EACH"
-  | .IN => "IN"
-  | .GENERATE => "GENERATE"
-  | .IF => "IF"
-  | .ELIF => "ELIF"
-  | .ELSE => "ELSE"
-  | .RELATE => "RELATE"
-  | .TO => "TO"
-  | .ACROSS => "ACROSS"
-  | .USING => "USING"
-  | .RETURN => "RETURN"
-  | .SELECT => "SELECT"
-  | .ONE => "ONE"
-  | .ANY => "ANY"
-  | .MANY => "MANY"
-  | .TRANSFORM => "TRANSFORM"
-  | .UNRELATE => "UNRELATE"
-  | .FROM => "FROM"
-  | .WHILE => "WHILE"
-  | .CLASS => "CLASS"
-  | .CREATOR => "CREATOR"
-  | .RELATED => "RELATED"
-  | .BY => "BY"
-  | .INSTANCES => "INSTANCES"
-  | .WHERE => "WHERE"
-  | .CARDINALITY => "CARDINALITY"
-  | .EMPTY => "EMPTY"
-  | .FALSE => "FALSE"
-  | .NOT => "NOT"
-  | .NOT_EMPTY => "NOT_EMPTY"
-  | .TRUE => "TRUE"
-  | .AND => "AND"
-  | .OR => "OR"
-  | .PARAM => "PARAM"
-  | .RCVD_EVT => "RCVD_EVT"
-  | .SELF => "SELF"
-  | .SELECTED => "SELECTED"
-  | .LOOP => "LOOP"
-  | .THEN => "THEN"
-  | .SEMICOLON => "SEMICOLON"
-  | .EQUAL => "EQUAL"
-  | .DOT => "DOT"
-  | .DOUBLECOLON => "DOUBLECOLON"
-  | .LPAREN => "LPAREN"
-  | .RPAREN => "RPAREN"
-  | .TIMES => "TIMES"
-  | .COLON => "COLON"
-  | .COMMA => "COMMA"
-  | .ARROW => "ARROW"
-  | .LSQBR => "LSQBR"
-  | .RSQBR => "RSQBR"
-  | .ID => "ID"
-  | .NAMESPACE => "NAMESPACE"
-  | .END_FOR => "END_FOR"
-  | .END_IF => "END_IF"
-  | .END_WHILE => "END_WHILE"
-  | .TICKED_PHRASE => "TICKED_PHRASE"
-  | .QMARK => "QMARK"
-  | .FRACTION => "FRACTION"
-  | .NUMBER => "NUMBER"
-  | .STRING => "STRING"
-  | .DOUBLEEQUAL => "DOUBLEEQUAL"
-  | .NOTEQUAL => "NOTEQUAL"
-  | .LESSTHAN => "LESSTHAN"
-  | .LE => "LE"
-  | .GT => "GT"
-  | .GE => "GE"
-  | .PLUS => "PLUS"
-  | .MINUS => "MINUS"
-  | .PIPE => "PIPE"
-  | .DIV => "DIV"
-  | .MOD => "MOD"
-  | .AMP => "AMP"
-  | .CARET => "CARET"
+def kindName (k : Kind) : String := k.name
 
 def kindOf : String → Option Kind
   | "ASSIGN" => some .ASSIGN
@@ -531,8 +455,46 @@ def parsed (toks : List Sexp) : Sexp :=
     | none => sym "error"
   | none => sym "bad-tokens"
 
+def strs : List Sexp → Option (List String)
+  | [] => some []
+  | str s :: xs => (strs xs).map (s :: ·)
+  | _ => none
+
+def lexedToks (text : List Char) : List Tok := (Pyx.OalLex.lex text).map Pyx.OalText.ofLexTok
+
+def answersOf (toks : List Tok) : Sexp × Sexp :=
+  (list (sym "lexed" :: toks.map encTok),
+   match parseStmts tbl toks with          -- on `lexedToks text` this is `Pyx.OalText.parseText text`
+   | some b => list [sym "parsed", list (encBlock b)]
+   | none => sym "error")
+
+def textAnswers (text : List Char) : Sexp × Sexp := answersOf (lexedToks text)
+
+def textOf : List Tok → List String → List Char
+  | t :: ts, g :: gs => t.lex.toList ++ g.toList ++ textOf ts gs
+  | _, _ => []
+
+def atText (tree : Sexp) (lay toks : List Sexp) : Sexp :=
+  match strs lay, decToks toks with
+  | some (sep0 :: gaps), some ts =>
+    if gaps.length != ts.length then sym "bad-layout" else
+    let text := sep0.toList ++ textOf ts gaps ++ ['\n']
+    let lexed := lexedToks text
+    let same := lexed == ts
+    -- when the lexer model returns exactly the written tokens, `parseText text` is `parseStmts` of those tokens:
+    -- the second answer; both are then abbreviated to `=`
+    let (lx, pt) := if same then (sym "=", sym "=") else answersOf lexed
+    let dom := Pyx.OalText.inDomain ts sep0.toList (gaps.map String.toList)
+    list [printed tree, parsed toks, lx, pt, list [sym "dom", ofBool dom.1, ofBool dom.2, ofBool same]]
+  | _, _ => sym "bad-layout"
+
 def handle : List Sexp → Option Sexp
+  | sym "c07" :: tree :: list (sym "lay" :: lay) :: toks => some (atText tree lay toks)
   | sym "c07" :: tree :: toks => some (list [printed tree, parsed toks])
+  | sym "c07t" :: texts =>
+    match strs texts with
+    | some ts => some (list (ts.map fun t => let (a, b) := textAnswers (t.toList ++ ['\n']); list [a, b]))
+    | none => some (sym "bad-texts")
   | _ => none
 
 end Pyx.Driver.C07
